@@ -30,6 +30,8 @@ ASSUME = [
     "pppoe.IPPoolAllocator in the harness); `assigned` = configured / SetPeerIP / allocated and not yet released",
     "option bytes: well-formed lists, one option with an impossible length, and a stray trailing byte; the harness "
     "compares the BYTES of every Configure-Ack with the request's (decoder robustness beyond that is property C09)",
+    "silent peer: `_silent_peer_quiet` (no timer armed after MaxConfigure+1 expiries) holds unconditionally; that the "
+    "automaton also LEAVES the timer-driven states is proved only under WaitOk (finding KF-ncp-timer-stopped-early)",
     "the translator's sweep for writes to the automaton's fields outside the translated methods is syntactic (receiver / "
     "parameter names, field names unique to the automata, state constants); processConfigureOptions and "
     "storePeerOptions are hand-modelled and tied by the differential run only",
